@@ -5,6 +5,7 @@
 pub mod grammar;
 pub mod isa;
 pub mod panics;
+pub mod progs;
 pub mod report;
 
 pub use report::{Ctx, Finding, Tier};
